@@ -15,7 +15,13 @@ pub enum Fam {
     Gkr,
     /// items added / removed / duplicated with every dependent count and length kept consistent
     Consistent,
+    /// every pair of one-byte header fields (trace shape, options, query count) over a boundary alphabet squared
+    HeaderPair,
 }
+
+/// boundary byte values for header fields: small counts, powers of two and their neighbours, the exponents at
+/// which 2^a * 2^b leaves 32 / 64 bits, the extremes
+pub const HEADER_VALUES: [u8; 30] = [0, 1, 2, 3, 4, 5, 7, 8, 9, 15, 16, 17, 24, 29, 30, 31, 32, 33, 40, 41, 56, 57, 61, 62, 63, 64, 65, 128, 254, 255];
 
 /// one edit of a consistent multi-field mutant
 #[derive(Clone, Debug)]
@@ -40,6 +46,7 @@ pub struct MutSpace {
     counts: Vec<usize>, // indexes of Count fields
     swaps: Vec<(usize, usize, usize)>, // (offset a, offset b, len) ranges to exchange
     scripts: Vec<(String, Vec<Edit>)>,
+    header: Vec<usize>, // indexes of the one-byte fields of the context, the options and the proof header
 }
 
 const BYTE_VALUES: [u8; 5] = [0x00, 0x01, 0x7f, 0x80, 0xff];
@@ -67,6 +74,7 @@ impl MutSpace {
                 }
             }
         }
+        let header: Vec<usize> = layout.fields.iter().enumerate().filter(|(_, f)| f.len == 1 && matches!(f.comp, "context" | "options" | "proof") && matches!(f.kind, FKind::Count | FKind::Enum | FKind::Len)).map(|(i, _)| i).collect();
         let scripts = if fams.contains(&Fam::Consistent) { consistent_scripts(&base, &layout) } else { vec![] };
         let l = base.len() as u64;
         let mut f = vec![];
@@ -86,10 +94,14 @@ impl MutSpace {
                 },
                 Fam::Gkr => 6,
                 Fam::Consistent => scripts.len() as u64,
+                Fam::HeaderPair => {
+                    let h = header.len() as u64;
+                    h * h.saturating_sub(1) / 2 * (HEADER_VALUES.len() * HEADER_VALUES.len()) as u64
+                },
             };
             f.push((*fam, n));
         }
-        MutSpace { base, layout, pm1, ext, fams: f, ctrl, elems, counts, swaps, scripts }
+        MutSpace { base, layout, pm1, ext, fams: f, ctrl, elems, counts, swaps, scripts, header }
     }
 
     pub fn len(&self) -> u64 {
@@ -281,6 +293,27 @@ impl MutSpace {
                 write_le(&mut b, f.off, f.len, vf);
                 write_le(&mut b, g.off, g.len, vg);
                 label = format!("count fields {} and {} set to {} / {}", f.name, g.name, if vf == 0 { "0" } else { "max" }, if vg == 0 { "0" } else { "max" });
+            },
+            Fam::HeaderPair => {
+                let nv = HEADER_VALUES.len() as u64;
+                let (vi, vj) = ((idx % nv) as usize, ((idx / nv) % nv) as usize);
+                let mut pi = (idx / (nv * nv)) as usize;
+                let h = self.header.len();
+                let (mut i, mut j) = (0, 1);
+                'o: for a in 0..h {
+                    for bb in a + 1..h {
+                        if pi == 0 {
+                            i = a;
+                            j = bb;
+                            break 'o;
+                        }
+                        pi -= 1;
+                    }
+                }
+                let (f, g) = (&self.layout.fields[self.header[i]], &self.layout.fields[self.header[j]]);
+                b[f.off] = HEADER_VALUES[vi];
+                b[g.off] = HEADER_VALUES[vj];
+                label = format!("header fields {} and {} set to {} / {}", f.name, g.name, HEADER_VALUES[vi], HEADER_VALUES[vj]);
             },
             Fam::Consistent => {
                 let (l, edits) = &self.scripts[idx as usize];
